@@ -3,7 +3,7 @@ From Coq Require Import QArith Qcanon List Bool Arith String.
 From PV.Base Require Import Sums.
 From PV.Model Require Import Resistive.
 From PV.Gen Require Import ResistiveK.
-From PV.Proofs Require Import Resistive ResistiveGen Energy.
+From PV.Proofs Require Import Resistive ResistiveGen Energy Positivity Triangle.
 Import ListNotations.
 Close Scope string_scope.
 Open Scope Qc_scope.
@@ -113,3 +113,39 @@ Theorem C18_energy_form n c (v : nat -> Qc) : (forall i j, c i j = c j i) ->
   = sumn n (fun i => sumn n (fun j => c i j * ((v i - v j) * (v i - v j)))).
 Proof. exact (energy_form n c v). Qed.
 Print Assumptions C18_energy_form.
+
+(* ---- the metric and the path bound, on connected networks with symmetric
+        non-negative conductances (connected = every node reachable from every
+        node along links of non-zero conductance) ---- *)
+
+(* vanishes only between identical nodes *)
+Theorem C18_positive n c R a b : (a < n)%nat -> (b < n)%nat -> a <> b ->
+  (forall i j, c i j = c j i) -> (forall i j, 0 <= c i j) -> connected n c ->
+  is_pinv n (lap n c) R -> eff R a b <> 0.
+Proof. exact (eff_positive n c R a b). Qed.
+Print Assumptions C18_positive.
+
+(* maximum principle: the potential of a unit current is highest at its source *)
+Theorem C18_maximum_principle n c v a b :
+  (forall i j, c i j = c j i) -> (forall i j, 0 <= c i j) -> connected n c ->
+  (a < n)%nat -> (b < n)%nat ->
+  (forall i, (i < n)%nat -> sumn n (fun j => lap n c i j * v j) = delta i a - delta i b) ->
+  forall x, (x < n)%nat -> v x <= v a.
+Proof. exact (max_at_source n c v a b). Qed.
+Print Assumptions C18_maximum_principle.
+
+(* triangle inequality *)
+Theorem C18_triangle n c R a b d : (a < n)%nat -> (b < n)%nat -> (d < n)%nat ->
+  (forall i j, c i j = c j i) -> (forall i j, 0 <= c i j) -> connected n c ->
+  is_pinv n (lap n c) R -> eff R a d <= eff R a b + eff R b d.
+Proof. exact (eff_triangle n c R a b d). Qed.
+Print Assumptions C18_triangle.
+
+(* Rayleigh: never more than the resistance of any connecting path *)
+Theorem C18_path_bound n c R :
+  (forall i j, c i j = c j i) -> (forall i j, 0 <= c i j) -> connected n c ->
+  is_pinv n (lap n c) R ->
+  forall p a b, is_path n c p -> hd 0%nat p = a -> last p 0%nat = b -> (b < n)%nat ->
+  eff R a b <= path_resistance c p.
+Proof. exact (eff_path_bound n c R). Qed.
+Print Assumptions C18_path_bound.
